@@ -396,7 +396,8 @@ class InProtocolBase(ProtocolMixin):
 
         try:
             return int(string)
-        except ValueError:
+        except (ValueError, OverflowError, TypeError):
+            # OverflowError: a float infinity, TypeError: not a number at all
             raise ValidationError(string, "Could not cast %r to integer")
 
     def time_from_unicode(self, cls, string):
